@@ -595,4 +595,441 @@ theorem ui_groupingOp_union {nA nB : Nat} (g : Grouping) {cols : List Col} {out 
     obtain ⟨a, c, d⟩ := ui_wthh_union (nB := nB) hcols hv hsep h
     exact ⟨_, a, Col.SamePart.refl _, c, d, fun _ => rfl⟩
 
+/-! ## the lift through the evaluation of the DAG -/
+
+/-- the Python function of a vectorized rule has at least one argument (a rule without any argument
+is called once and returns a Python number; the lift covers it only if it has no input node at all) -/
+def Kind.ui_ruleArgs : Kind → Prop
+  | .rule fn _ _ => fn.args ≠ []
+  | _ => True
+
+/-- a rule all of whose inputs are scalars (in particular a rule without any input) does not see
+the rows at all: gathering rows changes neither the call nor the (scalar) result -/
+theorem ui_ruleOp_gather_scalar {n : Nat} (σ : List Nat)
+    {params : List (String × Val)} {fn : FunDef} {ty : Ty} {spec : Option RSpec}
+    {free : List String} {cols : List Col} {out : Col} (hcols : ColsOK n cols)
+    (hall : ∀ c ∈ cols, c.scalar = true)
+    (h : ruleOp params fn (some ty) spec free cols = .ok out) :
+    ruleOp params fn (some ty) spec free (cols.map (Col.permute σ)) = .ok (out.permute σ) := by
+  rw [map_permute_of_all_scalar σ cols hall, h]
+  rw [ruleOp_declared] at h
+  obtain ⟨n?, hb, h⟩ := bind_ok h
+  obtain ⟨raw, hraw, h⟩ := bind_ok h
+  obtain ⟨rs, hrs, h⟩ := bind_ok h
+  obtain ⟨o, ho, hfin⟩ := bind_ok h
+  have hbo := broadcastLen_ok hcols
+  rw [hb] at hbo
+  have hf : cols.filter (!·.scalar) = [] := by
+    rw [List.filter_eq_nil_iff]
+    intro c hc
+    simp [hall c hc]
+  rw [if_pos hf] at hbo
+  cases hbo
+  rw [Col.permute_of_scalar (finish_scalar hfin (mkOut_scalar ho (Or.inr rfl)))]
+
+/-- the relation between the value `c` of the node / data column `name` in the run on the joint
+table and its value `c'` in the run on the first `nA` rows alone: nodes marked by `isId` (derived
+group ids) induce the same partition on the first `nA` rows, all others are restricted exactly -/
+def UnionIdRel (nA : Nat) (isId : String → Bool) (name : String) (c c' : Col) : Prop :=
+  if isId name then Col.SamePart (c.takeRows nA) c' else c' = c.takeRows nA
+
+/-- the invariant of the lift -/
+def ui_Inv (nA nB : Nat) (isId : String → Bool) (name : String) (c c' : Col) : Prop :=
+  ColOK (nA + nB) c ∧
+    if isId name then
+      Col.SamePart (c.takeRows nA) c' ∧ (∀ x ∈ c.ints, 0 ≤ x) ∧ (∀ x ∈ c'.ints, 0 ≤ x) ∧
+        pi_colChk c' = false ∧ un_IdsSep nA c.ints
+    else c' = c.takeRows nA
+
+theorem ui_Inv.rel {nA nB : Nat} {isId : String → Bool} {name : String} {c c' : Col}
+    (h : ui_Inv nA nB isId name c c') : UnionIdRel nA isId name c c' := by
+  unfold UnionIdRel
+  have := h.2
+  split at this
+  · rename_i hi; rw [if_pos hi]; exact this.1
+  · rename_i hi; rw [if_neg hi]; exact this
+
+theorem ui_Inv.unmarked {nA nB : Nat} {isId : String → Bool} {name : String} {c c' : Col}
+    (h : ui_Inv nA nB isId name c c') (hi : isId name = false) : c' = c.takeRows nA := by
+  have := h.2
+  rw [if_neg (by simp [hi])] at this
+  exact this
+
+theorem ui_Inv.marked {nA nB : Nat} {isId : String → Bool} {name : String} {c c' : Col}
+    (h : ui_Inv nA nB isId name c c') (hi : isId name = true) :
+    Col.SamePart (c.takeRows nA) c' ∧ (∀ x ∈ c.ints, 0 ≤ x) ∧ (∀ x ∈ c'.ints, 0 ≤ x) ∧
+      pi_colChk c' = false ∧ un_IdsSep nA c.ints := by
+  have := h.2
+  rw [if_pos hi] at this
+  exact this
+
+theorem ui_argsRel_colsOK {nA nB : Nat} {isId : String → Bool} {ds : List String}
+    {as as' : List Col} (h : Dag.ArgsRel (ui_Inv nA nB isId) ds as as') : ColsOK (nA + nB) as := by
+  induction h with
+  | nil => intro c hc; cases hc
+  | cons h _ ih =>
+    intro c hc
+    rcases List.mem_cons.1 hc with rfl | hc
+    · exact h.1
+    · exact ih c hc
+
+theorem ui_argsRel_unmarked {nA nB : Nat} {isId : String → Bool} {ds : List String}
+    {as as' : List Col} (h : Dag.ArgsRel (ui_Inv nA nB isId) ds as as')
+    (hu : ∀ d ∈ ds, isId d = false) : as' = as.map (Col.takeRows nA) := by
+  induction h with
+  | nil => rfl
+  | cons h _ ih =>
+    rw [List.map_cons, h.unmarked (hu _ List.mem_cons_self),
+      ih fun d hd => hu d (List.mem_cons_of_mem _ hd)]
+
+/-- rules with declared type, time conversions and `sum_by_p_id` commute with the restriction to the
+first `nA` rows (success direction) -/
+theorem ui_nodeOf_take {nA nB : Nat} (params : List (String × Val)) (specs : List (String × RSpec))
+    (f : Fn) (hk : f.kind.permOK = true) {args : List Col}
+    (hr : f.kind.ui_ruleArgs ∨ ∀ c ∈ args, c.scalar = true)
+    (hga : f.kind.un_isGroupAgg = false) {out : Col}
+    (hargs : ColsOK (nA + nB) args)
+    (hnd : f.kind.isPidSum = true → ∀ pid, args[2]? = some pid → pid.ints.Nodup)
+    (hcl : f.kind.isPidSum = true → ∀ ptr pid, args[1]? = some ptr → args[2]? = some pid →
+      ptr.scalar = false → pid.scalar = false → un_PtrClosed 0 nA ptr.ints pid.ints)
+    (h : (nodeOf params specs f).op args = .ok out) :
+    (nodeOf params specs f).op (args.map (Col.takeRows nA)) = .ok (out.takeRows nA) ∧
+      ColOK (nA + nB) out := by
+  have ham : 0 + nA ≤ nA + nB := by omega
+  have hok : ColOK (nA + nB) out :=
+    (nodeOf_perm (List.Perm.refl (List.range (nA + nB))) params specs f hk hargs hnd h).2
+  refine ⟨?_, hok⟩
+  rw [← un_map_permute_take hargs (Nat.le_add_right nA nB),
+    ← un_permute_take hok (Nat.le_add_right nA nB)]
+  obtain ⟨name, fargs, ann, kind⟩ := f
+  cases kind with
+  | rule fn ret key =>
+    cases ret with
+    | none => cases hk
+    | some ty =>
+      rcases hr with hr | hr
+      · exact un_ruleOp_gather (un_win_valid ham) hr hargs h
+      · exact ui_ruleOp_gather_scalar _ hargs hr h
+  | pidSum src ptr => exact (un_pidSumOp_win_list ham hargs (hnd rfl) (hcl rfl) h).1
+  | timeConv src u v =>
+    have h' : timeConvOp u v args = .ok out := h
+    show timeConvOp u v (args.map (Col.permute (un_win 0 nA))) = _
+    rw [timeConvOp_perm_list (un_win_valid ham) u v args hargs, h']
+    rfl
+  | groupAgg ag src gid => cases hga
+  | grouping g => cases hk
+
+theorem ui_groupAggOp_two_take {nA nB : Nat} (a : Aggr) {col gid out : Col}
+    (hcols : ColsOK (nA + nB) [col, gid]) (hsep : un_IdsSep nA gid.ints)
+    (h : groupAggOp a [col, gid] = .ok out) :
+    groupAggOp a [col.takeRows nA, gid.takeRows nA] = .ok (out.takeRows nA) ∧
+      ColOK (nA + nB) out := by
+  have hA := un_groupAggOp_two_win (a := 0) (m := nA) (by omega) a hcols
+    (fun _ => un_Sep_take hsep) h
+  rw [← un_permute_take (hcols col (by simp)) (Nat.le_add_right nA nB),
+    ← un_permute_take (hcols gid (by simp)) (Nat.le_add_right nA nB),
+    ← un_permute_take hA.2 (Nat.le_add_right nA nB)]
+  exact hA
+
+theorem ui_groupAggOp_one_take {nA nB : Nat} (a : Aggr) {gid out : Col}
+    (hcols : ColsOK (nA + nB) [gid]) (hsep : un_IdsSep nA gid.ints)
+    (h : groupAggOp a [gid] = .ok out) :
+    groupAggOp a [gid.takeRows nA] = .ok (out.takeRows nA) ∧ ColOK (nA + nB) out := by
+  have hA := un_groupAggOp_one_win (a := 0) (m := nA) (by omega) a hcols
+    (fun _ => un_Sep_take hsep) h
+  rw [← un_permute_take (hcols gid (by simp)) (Nat.le_add_right nA nB),
+    ← un_permute_take hA.2 (Nat.le_add_right nA nB)]
+  exact hA
+
+/-- the ids produced by `eg_id`, `ehe_id`, `sn_id`, `fg_id` are non-negative -/
+theorem ui_grouping_nonneg {n : Nat} (g : Grouping) (hg : g ≠ .bg ∧ g ≠ .wthh) {cols : List Col}
+    {out : Col} (hcols : ColsOK n cols) (hv : pi_Valid g cols) (h : groupingOp g cols = .ok out) :
+    ∀ x ∈ out.ints, 0 ≤ x := by
+  have hσ : (List.range n).Perm (List.range n) := List.Perm.refl _
+  cases g with
+  | eg => obtain ⟨_, _, _, _, h4, _⟩ := pi_pair_perm hσ .eg (Or.inl rfl) hcols hv h; exact h4
+  | ehe => obtain ⟨_, _, _, _, h4, _⟩ := pi_pair_perm hσ .ehe (Or.inr rfl) hcols hv h; exact h4
+  | sn => obtain ⟨_, _, _, _, h4, _⟩ := pi_sn_perm hσ hcols hv h; exact h4
+  | fg => obtain ⟨_, _, _, _, h4, _⟩ := pi_fg_perm hσ hcols hv h; exact h4
+  | bg => exact absurd rfl hg.1
+  | wthh => exact absurd rfl hg.2
+
+/-- what the lift needs to know about a function `f` of the system `S` evaluated on the JOINT data
+`D` (first `nA` rows = A):
+* an id constructor other than `wthh_id` is marked; the only marked argument an id constructor may
+  consume is the first argument of `bg_id`; on the evaluated arguments the validity hypothesis
+  `pi_Valid` and the separation hypothesis `ui_Sep` of the constructor hold (for `bg_id` moreover
+  the fg ids are non-negative);
+* a grouped aggregation is not marked and consumes a marked node at most as LAST argument; if its
+  last argument is NOT marked (a data column, `wthh_id`, …) it never evaluates to a column in which
+  an id of the first `nA` rows occurs among the remaining rows;
+* every other function is a rule with declared return type (whose Python function has at least one
+  argument, or which has no input node at all), a time conversion or `sum_by_p_id`, is not marked and
+  consumes no marked node; for `sum_by_p_id` the
+  third argument never evaluates to a column with duplicates and both parts are closed under the
+  pointer column (second argument). -/
+def ui_GoodFn (params : List (String × Val)) (isId : String → Bool) (S : Dag.Sys Col)
+    (D : Dag.Data Col) (nA : Nat) (f : Fn) : Prop :=
+  match f.kind with
+  | .grouping g =>
+    isId f.name = (g != .wthh) ∧
+    (∀ i d, (freeArgs params f)[i]? = some d → isId d = true → g = .bg ∧ i = 0) ∧
+    (∀ k args, Dag.evalAll (Dag.eval S D k) (freeArgs params f) = .ok args →
+      pi_Valid g args ∧ ui_Sep g nA args ∧
+        (g = .bg → ∀ c, args[0]? = some c → ∀ x ∈ c.ints, 0 ≤ x))
+  | .groupAgg _ _ _ =>
+    isId f.name = false ∧
+    (∀ i d, (freeArgs params f)[i]? = some d → isId d = true →
+      i + 1 = (freeArgs params f).length) ∧
+    (∀ d, (freeArgs params f).getLast? = some d → isId d = false →
+      ∀ k v, Dag.eval S D k d = .ok v → un_IdsSep nA v.ints)
+  | _ =>
+    f.kind.permOK = true ∧ (f.kind.ui_ruleArgs ∨ freeArgs params f = []) ∧ isId f.name = false ∧
+    (∀ d ∈ freeArgs params f, isId d = false) ∧
+    (f.kind.isPidSum = true → ∀ d, (freeArgs params f)[2]? = some d →
+      ∀ k v, Dag.eval S D k d = .ok v → v.ints.Nodup) ∧
+    (f.kind.isPidSum = true → ∀ d1 d2, (freeArgs params f)[1]? = some d1 →
+      (freeArgs params f)[2]? = some d2 → ∀ k v1 v2, Dag.eval S D k d1 = .ok v1 →
+        Dag.eval S D k d2 = .ok v2 → un_PtrsClosed nA v1.ints v2.ints)
+
+/-- the step of the lift for a rule / time conversion / `sum_by_p_id` -/
+theorem ui_step_plain {nA nB : Nat}
+    (params : List (String × Val)) (specs : List (String × RSpec)) (isId : String → Bool)
+    (S : Dag.Sys Col) (D : Dag.Data Col) (f : Fn) (hk : f.kind.permOK = true)
+    (hr : f.kind.ui_ruleArgs ∨ freeArgs params f = []) (hga : f.kind.un_isGroupAgg = false)
+    (hid : isId f.name = false) (hu : ∀ d ∈ freeArgs params f, isId d = false)
+    (hpid : f.kind.isPidSum = true → ∀ d, (freeArgs params f)[2]? = some d →
+      ∀ k v, Dag.eval S D k d = .ok v → v.ints.Nodup)
+    (hcl : f.kind.isPidSum = true → ∀ d1 d2, (freeArgs params f)[1]? = some d1 →
+      (freeArgs params f)[2]? = some d2 → ∀ k v1 v2, Dag.eval S D k d1 = .ok v1 →
+        Dag.eval S D k d2 = .ok v2 → un_PtrsClosed nA v1.ints v2.ints)
+    {k : Nat} {args args' : List Col} {v : Col}
+    (hF : List.Forall₂ (fun d a => Dag.eval S D k d = .ok a) (freeArgs params f) args)
+    (hrel : Dag.ArgsRel (ui_Inv nA nB isId) (freeArgs params f) args args')
+    (h : (nodeOf params specs f).op args = .ok v) :
+    ∃ v', (nodeOf params specs f).op args' = .ok v' ∧ ui_Inv nA nB isId f.name v v' := by
+  rw [ui_argsRel_unmarked hrel hu]
+  have hok := ui_argsRel_colsOK hrel
+  have hr' : f.kind.ui_ruleArgs ∨ ∀ c ∈ args, c.scalar = true := by
+    rcases hr with hr | hr
+    · exact Or.inl hr
+    · right
+      have hl := hF.length_eq
+      rw [hr] at hl
+      have : args = [] := List.eq_nil_of_length_eq_zero hl.symm
+      rw [this]
+      intro c hc
+      cases hc
+  obtain ⟨h1, h2⟩ := ui_nodeOf_take params specs f hk hr' hga hok
+    (fun hp pid hpid2 => by
+      obtain ⟨d, hd, hda⟩ := forall₂_getElem?_right hF hpid2
+      exact hpid hp d hd k pid hda)
+    (fun hp ptr pid hptr hpid2 _ _ => by
+      obtain ⟨d1, hd1, hda1⟩ := forall₂_getElem?_right hF hptr
+      obtain ⟨d2, hd2, hda2⟩ := forall₂_getElem?_right hF hpid2
+      exact un_PtrClosed_take (hpid hp d2 hd2 k pid hda2)
+        (hcl hp d1 d2 hd1 hd2 k ptr pid hda1 hda2)) h
+  refine ⟨_, h1, h2, ?_⟩
+  rw [if_neg (by simp [hid])]
+
+/-- the step of the lift for a grouped aggregation -/
+theorem ui_step_groupAgg {nA nB : Nat} (isId : String → Bool) (name : String) (a : Aggr)
+    (ds : List String) (hid : isId name = false)
+    (hm : ∀ i d, ds[i]? = some d → isId d = true → i + 1 = ds.length)
+    {args args' : List Col} {v : Col}
+    (hsepU : ∀ d c, ds.getLast? = some d → isId d = false → args.getLast? = some c →
+      un_IdsSep nA c.ints)
+    (hrel : Dag.ArgsRel (ui_Inv nA nB isId) ds args args')
+    (h : groupAggOp a args = .ok v) :
+    ∃ v', groupAggOp a args' = .ok v' ∧ ui_Inv nA nB isId name v v' := by
+  have hok := ui_argsRel_colsOK hrel
+  have fin : ∀ {v'}, v' = v.takeRows nA ∧ ColOK (nA + nB) v → ui_Inv nA nB isId name v v' := by
+    intro v' hv
+    refine ⟨hv.2, ?_⟩
+    rw [if_neg (by simp [hid])]
+    exact hv.1
+  match ds, args, args', hrel, hsepU with
+  | [], _, _, .nil, _ => simp [groupAggOp] at h
+  | [d0], _, _, .cons (a := g) (a' := g') r0 .nil, hsepU =>
+    cases hi : isId d0 with
+    | true =>
+      obtain ⟨hsp, hn, hn', _, hsI⟩ := r0.marked hi
+      obtain ⟨h1, h2⟩ := ui_groupAggOp_one_take a hok hsI h
+      rw [pi_groupAggOp_one_congr a hsp (ui_nonneg_takeRows hn) hn'] at h1
+      exact ⟨_, h1, fin ⟨rfl, h2⟩⟩
+    | false =>
+      rw [r0.unmarked hi]
+      obtain ⟨h1, h2⟩ := ui_groupAggOp_one_take a hok (hsepU d0 g rfl hi rfl) h
+      exact ⟨_, h1, fin ⟨rfl, h2⟩⟩
+  | [d0, d1], _, _, .cons (a := c) (a' := c') r0 (.cons (a := g) (a' := g') r1 .nil), hsepU =>
+    have hi0 : isId d0 = false := by
+      cases hi : isId d0 with
+      | false => rfl
+      | true => have := hm 0 d0 rfl hi; simp at this
+    rw [r0.unmarked hi0]
+    cases hi : isId d1 with
+    | true =>
+      obtain ⟨hsp, hn, hn', _, hsI⟩ := r1.marked hi
+      obtain ⟨h1, h2⟩ := ui_groupAggOp_two_take a hok hsI h
+      rw [pi_groupAggOp_two_congr a _ hsp (ui_nonneg_takeRows hn) hn'] at h1
+      exact ⟨_, h1, fin ⟨rfl, h2⟩⟩
+    | false =>
+      rw [r1.unmarked hi]
+      obtain ⟨h1, h2⟩ := ui_groupAggOp_two_take a hok (hsepU d1 g rfl hi rfl) h
+      exact ⟨_, h1, fin ⟨rfl, h2⟩⟩
+  | _ :: _ :: _ :: _, _, _, .cons _ (.cons _ (.cons _ _)), _ => simp [groupAggOp] at h
+
+/-- the step of the lift for an id constructor -/
+theorem ui_step_grouping {nA nB : Nat} (isId : String → Bool) (name : String) (g : Grouping)
+    (ds : List String) (hid : isId name = (g != .wthh))
+    (hm : ∀ i d, ds[i]? = some d → isId d = true → g = .bg ∧ i = 0)
+    {args args' : List Col} {v : Col}
+    (hrel : Dag.ArgsRel (ui_Inv nA nB isId) ds args args') (hv : pi_Valid g args)
+    (hsep : ui_Sep g nA args)
+    (hbg : g = .bg → ∀ c, args[0]? = some c → ∀ x ∈ c.ints, 0 ≤ x)
+    (h : groupingOp g args = .ok v) :
+    ∃ v', groupingOp g args' = .ok v' ∧ ui_Inv nA nB isId name v v' := by
+  have hok := ui_argsRel_colsOK hrel
+  have hns := pi_Valid_nonscalar hv
+  obtain ⟨_, _, _, hokv⟩ :=
+    pi_groupingOp_perm (List.Perm.refl (List.range (nA + nB))) g hok hv h
+  by_cases hgb : g = .bg
+  · subst hgb
+    have hid' : isId name = true := by rw [hid]; rfl
+    match args, hv, hsep, ds, args', hrel with
+    | [fg, alter, eigen], ⟨h0, h1, h2, hs⟩, hsep, [d0, d1, d2], _,
+        .cons (a' := fg') r0 (.cons (a' := alter') r1 (.cons (a' := eigen') r2 .nil)) =>
+      have hi1 : isId d1 = false := by
+        cases hi : isId d1 with
+        | false => rfl
+        | true => have := (hm 1 d1 rfl hi).2; simp at this
+      have hi2 : isId d2 = false := by
+        cases hi : isId d2 with
+        | false => rfl
+        | true => have := (hm 2 d2 rfl hi).2; simp at this
+      rw [r1.unmarked hi1, r2.unmarked hi2]
+      have hn : ∀ x ∈ fg.ints, 0 ≤ x := hbg rfl fg rfl
+      have hchk := pi_groupingOp_colChk h0 (by simp [h1, h2]) h
+      have hc0 : pi_colChk fg = false := by
+        simp only [pi_intChk, List.any_cons, Bool.or_eq_false_iff] at hchk
+        exact hchk.1
+      have hfacts : Col.SamePart (fg.takeRows nA) fg' ∧ (∀ x ∈ fg'.ints, 0 ≤ x) ∧
+          pi_colChk fg' = false := by
+        cases hi : isId d0 with
+        | true =>
+          obtain ⟨hsp, _, hn', hc, _⟩ := r0.marked hi
+          exact ⟨hsp, hn', hc⟩
+        | false =>
+          rw [r0.unmarked hi]
+          exact ⟨Col.SamePart.refl _, ui_nonneg_takeRows hn, ui_colChk_take nA hc0⟩
+      obtain ⟨hsp, hn', hc'⟩ := hfacts
+      obtain ⟨hA1, hA2, hA3⟩ := ui_bg_union (nB := nB) hok ⟨h0, h1, h2, hs⟩ hsep h
+      have hcA := ui_colsOK_take (nA := nA) hok
+      simp only [List.map_cons, List.map_nil] at hA1 hA3 hcA
+      obtain ⟨h0A, h1A, h2A, hsA⟩ := hA3
+      obtain ⟨outA, hoA, hspA, _⟩ := pi_bg_congr hcA h0A h1A h2A hsp hc' hsA hA1
+      have h0' : fg'.scalar = false := by rw [← hsp.scalar_eq]; exact h0A
+      refine ⟨outA, hoA, hokv, ?_⟩
+      rw [if_pos hid']
+      refine ⟨hspA, pi_bg_out_nonneg h0 h1 h2 hn h, pi_bg_out_nonneg h0' h1A h2A hn' hoA, ?_, hA2⟩
+      exact pi_groupingOp_out' (by
+        intro c hc; simp at hc; rcases hc with rfl | rfl | rfl <;> assumption) hoA
+  · have hu : ∀ d ∈ ds, isId d = false := by
+      intro d hd
+      obtain ⟨i, hi⟩ := List.getElem?_of_mem hd
+      cases hd' : isId d with
+      | false => rfl
+      | true => exact absurd (hm i d hi hd').1 hgb
+    rw [ui_argsRel_unmarked hrel hu]
+    obtain ⟨outA, hA1, hA2, hA3, hA4, hA5⟩ := ui_groupingOp_union (nB := nB) g hok hv hsep h
+    refine ⟨outA, hA1, hokv, ?_⟩
+    by_cases hw : g = .wthh
+    · subst hw
+      rw [if_neg (by rw [hid]; decide)]
+      exact hA5 (Or.inr rfl)
+    · have hid' : isId name = true := by
+        rw [hid]
+        cases g <;> first | rfl | exact absurd rfl hw
+      rw [if_pos hid']
+      refine ⟨hA2, ui_grouping_nonneg g ⟨hgb, hw⟩ hok hv h,
+        ui_grouping_nonneg g ⟨hgb, hw⟩ (ui_colsOK_take hok) hA4 hA1, ?_, hA3⟩
+      exact pi_groupingOp_out' (fun c hc => by
+        obtain ⟨c0, hc0, rfl⟩ := List.mem_map.1 hc
+        rw [ui_scalar_takeRows]; exact hns c0 hc0) hA1
+
+/-- one node of the system: related arguments give related results -/
+theorem ui_step {nA nB : Nat}
+    (params : List (String × Val)) (specs : List (String × RSpec)) (isId : String → Bool)
+    (S : Dag.Sys Col) (D : Dag.Data Col) (f : Fn) (hf : ui_GoodFn params isId S D nA f)
+    {k : Nat} {args args' : List Col} {v : Col}
+    (hargs : Dag.evalAll (Dag.eval S D k) (freeArgs params f) = .ok args)
+    (hrel : Dag.ArgsRel (ui_Inv nA nB isId) (freeArgs params f) args args')
+    (h : (nodeOf params specs f).op args = .ok v) :
+    ∃ v', (nodeOf params specs f).op args' = .ok v' ∧ ui_Inv nA nB isId f.name v v' := by
+  have hF := (Dag.evalAll_ok_iff _ _ _).1 hargs
+  obtain ⟨name, fargs, ann, kind⟩ := f
+  cases kind with
+  | rule fn ret key =>
+    obtain ⟨hk, hr, hid, hu, hpid, hcl⟩ := hf
+    exact ui_step_plain params specs isId S D _ hk hr rfl hid hu hpid hcl hF hrel h
+  | pidSum src ptr =>
+    obtain ⟨hk, hr, hid, hu, hpid, hcl⟩ := hf
+    exact ui_step_plain params specs isId S D _ hk hr rfl hid hu hpid hcl hF hrel h
+  | timeConv src u u2 =>
+    obtain ⟨hk, hr, hid, hu, hpid, hcl⟩ := hf
+    exact ui_step_plain params specs isId S D _ hk hr rfl hid hu hpid hcl hF hrel h
+  | groupAgg a src gid =>
+    obtain ⟨hid, hm, hsepU⟩ := hf
+    refine ui_step_groupAgg isId name a _ hid hm ?_ hrel h
+    intro d c hd hi hc
+    obtain ⟨d', hd', hda⟩ := un_forall₂_getLast? hF hc
+    rw [hd] at hd'
+    cases hd'
+    exact hsepU d hd hi k c hda
+  | grouping g =>
+    obtain ⟨hid, hm, hval⟩ := hf
+    obtain ⟨hv, hsep, hbg⟩ := hval k args hargs
+    exact ui_step_grouping isId name g _ hid hm hrel hv hsep hbg h
+
+/-- the lift: every node evaluated on the joint table is evaluated on the first `nA` rows alone, and
+the two values are related by the invariant -/
+theorem ui_sys_eval_union_ids {nA nB : Nat}
+    (params : List (String × Val)) (specs : List (String × RSpec)) (fns : List Fn)
+    (isId : String → Bool) (D : Dag.Data Col)
+    (hfns : ∀ f ∈ fns, ui_GoodFn params isId (sysOf params specs fns) D nA f)
+    (hD : ColsOK (nA + nB) (D.map (·.2))) (hDid : ∀ p ∈ D, isId p.1 = false) :
+    ∀ (k : Nat) (t : String) (v : Col), Dag.eval (sysOf params specs fns) D k t = .ok v →
+      ∃ v', Dag.eval (sysOf params specs fns) (un_takeData nA D) k t = .ok v' ∧
+        ui_Inv nA nB isId t v v' := by
+  rw [← un_permData_take hD (Nat.le_add_right nA nB)]
+  intro k
+  induction k with
+  | zero => intro t v h; simp [Dag.eval] at h
+  | succ k ih =>
+    intro t v h
+    cases hDt : Dag.find? D t with
+    | some c =>
+      rw [Dag.eval_succ_of_data hDt] at h
+      cases h
+      have hD' : Dag.find? (permData (un_win 0 nA) D) t = some (v.permute (un_win 0 nA)) := by
+        rw [find?_permData, hDt]; rfl
+      have hmem := Dag.find?_mem D t v hDt
+      have hcv := hD v (List.mem_map.2 ⟨(t, v), hmem, rfl⟩)
+      refine ⟨_, Dag.eval_succ_of_data hD', hcv, ?_⟩
+      rw [if_neg (by simp [hDid (t, v) hmem]), un_permute_take hcv (Nat.le_add_right nA nB)]
+    | none =>
+      have hD' : Dag.find? (permData (un_win 0 nA) D) t = none := by
+        rw [find?_permData, hDt]; rfl
+      cases hSt : Dag.find? (sysOf params specs fns) t with
+      | none => rw [Dag.eval_succ_of_missing hDt hSt] at h; cases h
+      | some node =>
+        obtain ⟨f, hf, rfl, rfl⟩ := pi_sysOf_find? params specs fns t node hSt
+        rw [Dag.eval_succ_of_node hDt hSt] at h
+        rw [Dag.eval_succ_of_node hD' hSt]
+        obtain ⟨args, hargs, h⟩ := bind_ok h
+        obtain ⟨args', hargs', hrel⟩ := Dag.evalAll_rel_ok
+          (R := ui_Inv nA nB isId) (fun d _ a ha => ih d a ha) hargs
+        rw [hargs', ok_bind]
+        exact ui_step params specs isId _ D f (hfns f hf) hargs hrel h
+
 end GV.Simulate
